@@ -86,6 +86,9 @@ func (options *LoadOptions) apply(p *Project, preferIndex *bool) {
 }
 
 func Load(root string, options *LoadOptions) (proj *Project, err error) {
+	// Paths of generated files are related to the root textually (see link).
+	root = filepath.Clean(root)
+
 	home, err := homedir.Dir()
 	if err != nil {
 		return nil, fmt.Errorf("getting home directory: %w", err)
